@@ -49,3 +49,22 @@ for _pid, _ref in (("C03", "4/C03"), ("C04", "4/C04"), ("C05", "4/C05"), ("C06",
     register(_pid, f"simlab.profiles.{_pid.lower()}", "exploration",
              budgets={"quick": dict(runs=640, timeout=120), "thorough": dict(runs=20000, timeout=300)},
              rule=_CHAIN_RULE, assumptions=COMMON_ASSUMPTIONS, seams=_CHAIN_SEAMS, design_ref=_ref)
+
+register("C15", "simlab.profiles.c15", "exploration",
+         budgets={"quick": dict(runs=1600, timeout=120), "thorough": dict(runs=60000, timeout=300)},
+         rule=("each run = one seeded expression program (10-45 steps) over a pool of Op/OpSum objects on a generated model; "
+               "every result is compared with the matrix expression of the operand matrices and every pool member is re-evaluated "
+               "after every step.  non-trivial = result with >= 2 factors/terms; distinct = distinct (operation, sub-kind, scalar type, "
+               "result kind, size, model flavour, qn components)"),
+         assumptions=COMMON_ASSUMPTIONS + ["no fault kind applies to pure in-memory symbolic algebra: the simulation dimension is program order, aliasing and the in-place += only"],
+         seams=["program schedule with aliasing of handles"], design_ref="4/C15")
+
+register("C16", "simlab.profiles.c16", "exploration",
+         budgets={"quick": dict(runs=800, timeout=180), "thorough": dict(runs=30000, timeout=300)},
+         rule=("each run = one seeded session over 2-5 SHARED basis instances: op_mat requests for supported symbols, requests for unsupported "
+               "symbols (legal ValueError), use inside Model/Mpo, defining-relation checks, and model-builder checks against harness-assembled "
+               "Hamiltonians.  non-trivial = basis with >= 2 states / builder with a checked Hamiltonian; distinct = distinct "
+               "(operation, basis kind, symbol or relation, size, dvr, shifted-origin) tuples"),
+         assumptions=COMMON_ASSUMPTIONS + ["defining relations (ii) and builder checks (iii) are sampled inputs with the strength of seeded random testing; only history independence (i) is a schedule property",
+                                           "relations involving products at the truncation edge are compared on the sub-block unaffected by truncation"],
+         seams=["shared mutable BasisSet instances (per-instance _recursion_flag) under a schedule containing raising calls"], design_ref="4/C16")
